@@ -53,7 +53,7 @@ theorem binHeads_wrap (R : RepOps) (layer : Layer) (op : BinOp) (a b : Ty) (l r 
   cases layer with
   | sc radix =>
     simp only [binHeads, Layer.wrap, Scaled.binOp, true_or, ite_true, resultExp_zero, bind_pure_map, map_map, wrapSc]
-  | ov => simp only [binHeads, Layer.wrap, Overflow.binOp, ite_true]
+  | ov => simp only [binHeads, Layer.wrap, Overflow.binOp, Overflow.binOpOn, ite_true]
   | rd => simp only [binHeads, Layer.wrap, Rounding.binOp, ite_true]
 
 theorem ops_succ_bin (m : Nat) (op : BinOp) (hs : isShift op = false) (x y : Num) :
@@ -261,7 +261,7 @@ theorem innermost_nest (ls : List Layer) (t : IntTy) : innermost (nest ls t) = .
 theorem shiftWith_wrap (R : RepOps) (layer : Layer) (op : BinOp) (a : Ty) (l : Int) (y : Num) :
     shiftWith R op (layer.wrap a, l) y
       = (R.bin op (a, l) (innermost y.1, y.2)).map (fun v => (layer.wrap v.1, v.2)) := by
-  cases layer <;> simp [shiftWith, Layer.wrap, Overflow.binOp]
+  cases layer <;> simp [shiftWith, Layer.wrap, Overflow.binOp, Overflow.binOpOn]
 
 /-- shifts: the count may be any native nest or bare integer; it is unwrapped -/
 theorem shift_nest (ls : List Layer) : ∀ (n : Nat), ls.length ≤ n → ∀ (op : BinOp), isShift op = true →
